@@ -242,7 +242,8 @@ EndShowdown(C, S) ==
             THEN IF S.runout # 0 THEN [S EXCEPT !.runFlag = TRUE, !.retIdx = S.street + 1, !.retCnt = S.runout - 1]
                  ELSE [S EXCEPT !.runFlag = TRUE]
             ELSE S
-  IN IF Live(S1) = 1 THEN BeginPushing(C, S1)           \* everybody else has mucked: the hand is over, nothing more is dealt
+  IN IF Live(S1) = 0 /\ S1.allin /\ S1.street # NStreets(C) THEN [S1 EXCEPT !.fault = "OrphanPot"]     \* everybody has mucked (known finding)
+     ELSE IF Live(S1) = 1 THEN BeginPushing(C, S1)      \* everybody else has mucked: the hand is over, nothing more is dealt
      ELSE IF S1.allin /\ S1.street # NStreets(C) THEN BeginDealing(C, S1) ELSE BeginKilling(C, S1)
 
 UpdateShowdown(C, S) ==
